@@ -31,6 +31,9 @@ type Ledger struct {
 	Moves      []Movement // current block
 	// cumulative plain user->address transfers ("donations") per recipient|denom
 	Donated map[string]math.Int
+	// BlockOK: the current block's events were consistent with the real balances/supply
+	BlockOK     bool
+	LastProblem string
 }
 
 func NewLedger(s *Sim) *Ledger {
@@ -172,13 +175,25 @@ func (l *Ledger) Ingest(s *Sim, eb *ExecBlock) {
 			bad = append(bad, fmt.Sprintf("%s: prev=%s +%s -%s real=%s", a, l.prevBal[a], delta[a], neg[a], bal[a]))
 		}
 	}
+	// A mismatch means the event stream of this block does not describe what happened to the
+	// balances (e.g. code under test that emits the events of a cached context twice). The
+	// ledger of this block is then unusable: ledger-based checks skip the block, state-based
+	// monitors carry on, and the driver refuses to call a ledger-dependent property "held"
+	// on a batch that contains such blocks (exit 2, never a VIOLATION).
+	l.BlockOK = true
 	if len(bad) > 0 {
 		sort.Strings(bad)
-		s.Harness("ledger self-check failed (bank events do not explain balance changes):\n  %s", strings.Join(bad[:min(len(bad), 6)], "\n  "))
+		l.BlockOK = false
+		l.LastProblem = fmt.Sprintf("h=%d: bank events do not explain balance changes: %s", eb.Height, strings.Join(bad[:min(len(bad), 3)], " | "))
 	}
 	wantSup, isNeg := l.prevSupply.Add(minted...).SafeSub(burned...)
 	if isNeg || !wantSup.Equal(sup) {
-		s.Harness("ledger self-check failed (supply): prev=%s +%s -%s real=%s", l.prevSupply, minted, burned, sup)
+		l.BlockOK = false
+		l.LastProblem = fmt.Sprintf("h=%d: supply: prev=%s +%s -%s real=%s", eb.Height, l.prevSupply, minted, burned, sup)
+	}
+	if !l.BlockOK {
+		s.Stats.Inc("ledger_inconsistent_blocks", 1)
+		l.Moves = l.Moves[:0]
 	}
 	l.prevBal, l.prevSupply = bal, sup
 	s.Stats.Inc("ledger_movements", float64(len(l.Moves)))
